@@ -127,6 +127,15 @@ func collectDeclDependencies(d Decl) []string {
 		if d.Init != nil {
 			collectExprDeps(d.Init, nil, add)
 		}
+		// @group(G) / @binding(B) with named constants: the constants must be
+		// lowered before the variable so that the arguments can be evaluated.
+		for _, attr := range d.Attributes {
+			if attr.Name == "group" || attr.Name == "binding" {
+				for _, arg := range attr.Args {
+					collectExprDeps(arg, nil, add)
+				}
+			}
+		}
 	case *ConstDecl:
 		collectTypeRefs(d.Type, add)
 		if d.Init != nil {
